@@ -81,20 +81,27 @@ def mdPadLE (msg : ByteArray) : ByteArray := Id.run do
     out := out.push (UInt8.ofNat ((bitLen >>> (8 * i)) % 256))
   return out
 
-def ripemd160BA (msg : ByteArray) : ByteArray := Id.run do
+/-- the five state words, little-endian: 20 bytes by construction -/
+def digestLE5 (h : Array UInt32) : ByteArray := ByteArray.mk #[
+    h[0]!.toUInt8, (h[0]! >>> 8).toUInt8, (h[0]! >>> 16).toUInt8, (h[0]! >>> 24).toUInt8,
+    h[1]!.toUInt8, (h[1]! >>> 8).toUInt8, (h[1]! >>> 16).toUInt8, (h[1]! >>> 24).toUInt8,
+    h[2]!.toUInt8, (h[2]! >>> 8).toUInt8, (h[2]! >>> 16).toUInt8, (h[2]! >>> 24).toUInt8,
+    h[3]!.toUInt8, (h[3]! >>> 8).toUInt8, (h[3]! >>> 16).toUInt8, (h[3]! >>> 24).toUInt8,
+    h[4]!.toUInt8, (h[4]! >>> 8).toUInt8, (h[4]! >>> 16).toUInt8, (h[4]! >>> 24).toUInt8]
+
+def ripemd160State (msg : ByteArray) : Array UInt32 := Id.run do
   let p := mdPadLE msg
   let mut h : Array UInt32 := #[0x67452301, 0xefcdab89, 0x98badcfe, 0x10325476, 0xc3d2e1f0]
   for i in [0:p.size / 64] do
     h := rmdCompress h p (64 * i)
-  let mut out := ByteArray.emptyWithCapacity 20
-  for x in h do
-    out := out.push x.toUInt8 |>.push (x >>> 8).toUInt8 |>.push (x >>> 16).toUInt8 |>.push (x >>> 24).toUInt8
-  return out
+  return h
+
+def ripemd160BA (msg : ByteArray) : ByteArray := digestLE5 (ripemd160State msg)
 
 /-- RIPEMD-160 on byte lists (20-byte digest) -/
-def ripemd160 (msg : Bytes) : Bytes := (ripemd160BA (ByteArray.mk msg.toArray)).toList
+def ripemd160 (msg : Bytes) : Bytes := (ripemd160BA (ByteArray.mk msg.toArray)).data.toList
 
 /-- Bitcoin's `Hash160`: RIPEMD-160 of SHA-256 -/
-def hash160 (msg : Bytes) : Bytes := (ripemd160BA (sha256BA (ByteArray.mk msg.toArray))).toList
+def hash160 (msg : Bytes) : Bytes := (ripemd160BA (sha256BA (ByteArray.mk msg.toArray))).data.toList
 
 end BtcVerif.Crypto
